@@ -84,3 +84,13 @@ def observe(sp, xml, binding=env.BINDING_POST, outstanding=None, conv_info=None,
                      'key': env.fingerprint_to_name(c.get('key')), 'start': c.get('start'), 'sig': c.get('sig'),
                      'refs': c.get('refs'), 'nodeId': c.get('nodeId')} for c in log]
     return obs
+
+
+_IDP = {}
+
+
+def idp_for(metadata=None, **overrides):
+    key = json.dumps([metadata, overrides], sort_keys=True, default=str)
+    if key not in _IDP:
+        _IDP[key] = env.make_idp(env.idp_config(metadata_xml=metadata, **overrides))
+    return _IDP[key]
